@@ -30,7 +30,12 @@ type Prog struct {
 	cidx   *callIndex
 	imn    map[string]bool
 	impls  map[string][]*ssa.Function
+	// Inlined: log of the helper calls inlined by the normalisation (inline.go)
+	Inlined []string
 }
+
+// noInline switches the normalisation off (-noinline; used to generate the inventory).
+var noInline bool
 
 var repoDir = "/repo"
 
@@ -55,10 +60,56 @@ func Load(goos string, overlay map[string][]byte, patterns ...string) (*Prog, er
 	if len(pkgs) == 0 {
 		return nil, fmt.Errorf("no packages matched %v", patterns)
 	}
-	var errs []string
-	for _, p := range pkgs {
-		for _, e := range p.Errors {
-			errs = append(errs, e.Error())
+	pkgErrs := func(pkgs []*packages.Package) []string {
+		var errs []string
+		for _, p := range pkgs {
+			for _, e := range p.Errors {
+				errs = append(errs, e.Error())
+			}
+		}
+		return errs
+	}
+	errs := pkgErrs(pkgs)
+	// normalisation: inline the calls of helpers that did not exist on the pinned tree (inline.go)
+	var inlined []string
+	if len(errs) == 0 && !noInline {
+		ov := map[string][]byte{}
+		for k, v := range overlay {
+			ov[k] = v
+		}
+		seq := 0
+		cur := pkgs
+		for round := 0; round < 4; round++ {
+			edits, log := inlineRound(cur, ov, &seq)
+			if len(edits) == 0 {
+				break
+			}
+			for k, v := range edits {
+				ov[k] = v
+			}
+			cfg2 := *cfg
+			cfg2.Overlay = ov
+			next, err := packages.Load(&cfg2, patterns...)
+			if err != nil || len(pkgErrs(next)) > 0 {
+				// the rewrite does not type-check: analyse the program as written
+				msg := "load error"
+				if err == nil {
+					msg = pkgErrs(next)[0]
+				}
+				inlined = []string{"normalisation dropped (rewritten source does not type-check: " + short(msg, 300) + ")"}
+				if os.Getenv("SCALINT_INLINE_DEBUG") != "" {
+					for k, v := range edits {
+						os.WriteFile("/tmp/inline_debug_"+strings.ReplaceAll(rel(k), "/", "_"), v, 0o644)
+					}
+				}
+				cur = nil
+				break
+			}
+			inlined = append(inlined, log...)
+			cur = next
+		}
+		if cur != nil {
+			pkgs = cur
 		}
 	}
 	if len(errs) > 0 {
@@ -70,7 +121,7 @@ func Load(goos string, overlay map[string][]byte, patterns ...string) (*Prog, er
 	}
 	prog, _ := ssautil.Packages(pkgs, ssa.InstantiateGenerics)
 	prog.Build()
-	p := &Prog{GOOS: goos, Pkgs: pkgs, ByPath: map[string]*packages.Package{}, SSA: prog}
+	p := &Prog{GOOS: goos, Pkgs: pkgs, ByPath: map[string]*packages.Package{}, SSA: prog, Inlined: inlined}
 	for _, pk := range pkgs {
 		p.ByPath[pk.PkgPath] = pk
 		if p.Fset == nil {
@@ -114,6 +165,58 @@ func Load(goos string, overlay map[string][]byte, patterns ...string) (*Prog, er
 				addFn(prog.FuncValue(n.Method(i)))
 			}
 		}
+	}
+	// a new unexported helper whose every call was inlined is dead code: its logic is analysed where it
+	// now sits, in its callers
+	if len(inlined) > 0 {
+		loadInventory()
+		referenced := map[*ssa.Function]bool{}
+		for _, fn := range p.allFns {
+			for _, b := range fn.Blocks {
+				for _, in := range b.Instrs {
+					for _, op := range in.Operands(nil) {
+						if op == nil || *op == nil {
+							continue
+						}
+						if f, ok := (*op).(*ssa.Function); ok && f != fn {
+							referenced[f] = true
+						}
+						if mc, ok := (*op).(*ssa.MakeClosure); ok {
+							if f, ok := mc.Fn.(*ssa.Function); ok {
+								referenced[f] = true
+							}
+						}
+					}
+				}
+			}
+		}
+		isNewDead := func(fn *ssa.Function) bool {
+			root := fn
+			for root.Parent() != nil {
+				root = root.Parent()
+			}
+			if root.Object() == nil || root.Object().Exported() || referenced[root] || root.Pkg == nil {
+				return false
+			}
+			if root.Name() == "init" || root.Name() == "main" {
+				return false
+			}
+			recv := ""
+			if sig := root.Signature; sig.Recv() != nil {
+				if n := namedOf(sig.Recv().Type()); n != nil {
+					recv = n.Obj().Name()
+				}
+			}
+			return !inventory[root.Pkg.Pkg.Path()+"."+recv+"."+root.Name()]
+		}
+		kept := p.allFns[:0]
+		for _, fn := range p.allFns {
+			if isNewDead(fn) {
+				continue
+			}
+			kept = append(kept, fn)
+		}
+		p.allFns = kept
 	}
 	sort.Slice(p.allFns, func(i, j int) bool { return fnKey(p.allFns[i]) < fnKey(p.allFns[j]) })
 	p.nfuncs = len(p.allFns)
